@@ -434,3 +434,10 @@ class _Mu:
 SUBCHECKS = {"curve": _Cu(), "solve": _So(), "multirotor": _Mu(), "history": _Hi(), "highdeg": _Hd()}
 REPLAY = {"curve": lambda c: explore_curve(c).fails, "solve": lambda c: explore_solve(c).fails, "multirotor": lambda c: explore_multirotor(c).fails,
           "history": lambda c: explore_history(c).fails, "highdeg": lambda c: explore_highdeg(c).fails}
+
+# keyword / dict calls bind the documented names (see mc/kw.py)
+from .. import kw as _kw  # noqa: E402
+
+_KW = _kw.KwSub("bezier")
+SUBCHECKS["keywords"] = _KW
+REPLAY["keywords"] = _KW.replay
